@@ -3,6 +3,9 @@ package main
 import (
 	"encoding/json"
 	"fmt"
+	"github.com/bilibili/gengine/builder"
+	"github.com/bilibili/gengine/context"
+	"github.com/bilibili/gengine/engine"
 	"regexp"
 	"strconv"
 	"strings"
@@ -338,6 +341,80 @@ type c20Case struct {
 	Accept   []int     `json:"accept_lines"` // Primary + start lines of the enclosing positioned constructs that fail with it
 	Nodes    []c20Node `json:"constructs"`   // the positioned constructs on the path, outermost first
 	Text     string    `json:"text"`
+	// Entry: compile entry point the text goes through ("" = full build; "incr", "incr-onto", "pool",
+	// "poolfull", "poolincr"); Lead: empty lines put in front of the whole text (all expected lines shift)
+	Entry string `json:"entry,omitempty"`
+	Lead  int    `json:"lead,omitempty"`
+}
+
+// c20Variant derives the same case compiled through another entry point and/or with leading empty lines.
+func c20Variant(cs c20Case, entry string, lead int) c20Case {
+	v := cs
+	v.Entry, v.Lead = entry, lead
+	eol := "\n"
+	if cs.CRLF {
+		eol = "\r\n"
+	}
+	v.Text = strings.Repeat(eol, lead) + cs.Text
+	v.Primary += lead
+	v.Accept = nil
+	for _, a := range cs.Accept {
+		v.Accept = append(v.Accept, a+lead)
+	}
+	v.Nodes = nil
+	for _, n := range cs.Nodes {
+		n.Line += lead
+		v.Nodes = append(v.Nodes, n)
+	}
+	return v
+}
+
+const c20OtherText = "rule \"zz\" salience 100 begin\n  okf(9)\nend\n"
+
+// c20Execute compiles cs.Text through cs.Entry and executes the faulty rule.
+func c20Execute(cs c20Case) (err error, panicked interface{}) {
+	inj := c20Inject()
+	fail := func(e error) {
+		vsched.InternalError("C20: generated text does not compile through %q (%s/%s in %s): %v\n%s", cs.Entry, cs.Class, cs.Variant, cs.Ctx, e, cs.Text)
+	}
+	switch cs.Entry {
+	case "":
+		src, cerr := gx.Compile(cs.Text)
+		if cerr != nil {
+			fail(cerr)
+		}
+		_, _, err, panicked = gx.RunRule(src, cs.Rule, inj)
+	case "incr", "incr-onto":
+		rb := builder.NewRuleBuilder(context.NewDataContext())
+		if cs.Entry == "incr-onto" {
+			if e := rb.BuildRuleFromString(c20OtherText); e != nil {
+				fail(e)
+			}
+		}
+		if e := rb.BuildRuleWithIncremental(cs.Text); e != nil {
+			fail(e)
+		}
+		_, _, err, panicked = gx.RunRule(rb, cs.Rule, inj)
+	case "pool", "poolfull", "poolincr":
+		first := cs.Text
+		if cs.Entry != "pool" {
+			first = c20OtherText
+		}
+		gp, e := engine.NewGenginePool(1, 2, engine.SortModel, first, map[string]interface{}{"okf": inj["okf"]})
+		if e != nil {
+			fail(e)
+		}
+		if cs.Entry == "poolfull" {
+			e = gp.UpdatePooledRules(cs.Text)
+		} else if cs.Entry == "poolincr" {
+			e = gp.UpdatePooledRulesIncremental(cs.Text)
+		}
+		if e != nil {
+			fail(e)
+		}
+		err, _, panicked = gx.PoolCallGuarded(gx.PoolMethodByName("ExecuteSelectedRules"), gp, inj, gx.PoolCallParams{Names: []string{cs.Rule}})
+	}
+	return
 }
 
 var c20RuleNames = []string{"ra", "rb", "rc"}
@@ -565,13 +642,12 @@ type c20Verdict struct {
 }
 
 func c20Judge(cs c20Case) c20Verdict {
-	src, cerr := gx.Compile(cs.Text)
-	if cerr != nil {
-		vsched.InternalError("C20: generated text does not compile (%s/%s in %s): %v\n%s", cs.Class, cs.Variant, cs.Ctx, cerr, cs.Text)
-	}
-	_, _, err, panicked := gx.RunRule(src, cs.Rule, c20Inject())
+	err, panicked := c20Execute(cs)
 	var v c20Verdict
 	desc := fmt.Sprintf("%s/%s in %s (rule %d of 3, gap %d, spread %v, crlf %v)", cs.Class, cs.Variant, cs.Ctx, cs.RulePos+1, cs.Gap, cs.Spread, cs.CRLF)
+	if cs.Entry != "" || cs.Lead != 0 {
+		desc += fmt.Sprintf(" [entry point %q, %d leading empty line(s)]", cs.Entry, cs.Lead)
+	}
 	if cs.Solo {
 		desc = fmt.Sprintf("%s/%s in %s (one-rule text)", cs.Class, cs.Variant, cs.Ctx)
 	}
@@ -830,6 +906,26 @@ func c20Run(c *hx.Ctx) {
 			c.Res.AddExtra("viol:"+cs.Class+":"+cs.Ctx, 1)
 			c.Res.Report("C20", "case", cs, nil, v.Findings)
 		}
+		// the same text through the other compile entry points and with empty lines in front of it
+		// (the cited line is relative to the whole compiled text, whichever way it was compiled)
+		if cs.Solo || (!cs.Spread && !cs.CRLF && cs.RulePos == 1) || (c.Thorough() && cs.Gap == 1) {
+			for _, ev := range []struct {
+				entry string
+				lead  int
+			}{{"", 2}, {"incr", 0}, {"incr", 2}, {"incr-onto", 1}, {"pool", 1}, {"poolfull", 2}, {"poolincr", 1}} {
+				vc := c20Variant(cs, ev.entry, ev.lead)
+				vv := c20Judge(vc)
+				c.Res.Execs++
+				c.Res.AddExtra("cases", 1)
+				c.Res.AddExtra("entry:"+ev.entry, 1)
+				if len(vv.Findings) > 0 {
+					for i := range vv.Findings {
+						vv.Findings[i].Sig += ":entry=" + ev.entry
+					}
+					c.Res.Report("C20", "case", vc, nil, vv.Findings)
+				}
+			}
+		}
 	}
 }
 
@@ -860,7 +956,7 @@ func init() {
 		Kind:        "cases",
 		Rule: "one compiled three-rule text per case: fault class/variant (31: arithmetic ill-typed, division by zero, comparison/logic ill-typed, unknown/panicking/ill-typed-argument function, panicking/unknown method, three-level call, unassignable/unknown/mismatching assignment target, compound assignment, map-var on a non-container, unknown variable, forRange over a non-iterable) " +
 			"x enclosing statement kind (14: top level, assignment rhs, if body/condition, else-if condition, else body, for body/condition/init/step, forRange body, call argument, return expression, conc block; combinations the grammar cannot express are skipped) " +
-			"x faulty rule is rule 1, 2 or 3 x 0-3 blank/comment lines in front x construct (and carrier) tokens on one line or one per line x LF/CRLF " +
+			"x faulty rule is rule 1, 2 or 3 x 0-3 blank/comment lines in front x construct (and carrier) tokens on one line or one per line x LF/CRLF; a subset of the texts also through the other compile entry points (incremental build on an empty / non-empty builder, pool construction, pool full and incremental update) and with 1-2 empty lines in front of the whole text " +
 			"plus the faulty rule alone in a one-rule text (smallest reproducers) " +
 			"(thorough: x {plain, one more nesting level, a second later fault + tab indentation, all three}); only the faulty rule is executed; every `line N` of its error must be the start line of the reporting construct or of an enclosing assignment/call/expression node " +
 			"(and, when the message names a construct on that path by its code text, of exactly that construct), and listed fault classes must cite one; columns are not judged",
